@@ -117,7 +117,10 @@ impl Decoder for Codec {
                         if src.len() < hdr_len as usize {
                             return Ok(None);
                         }
-                        let payload_len = fixed.remaining_length - hdr_len;
+                        let payload_len = fixed
+                            .remaining_length
+                            .checked_sub(hdr_len)
+                            .ok_or(DecodeError::InvalidLength)?;
                         let mut buf = src.split_to(hdr_len as usize);
                         let publish = decode::decode_publish_packet(
                             &mut buf,
